@@ -6,13 +6,13 @@ from . import orch
 
 
 def gen_resilient(rng, tier, n_agents=(3, 6), per_agent=(1, 3), algos=("dsa", "mgm", "maxsum"),
-                  tight=True, k_range=(1, 3)):
+                  tight=True, k_range=(1, 3), max_maxsum_vars=6):
     n_a = rng.randint(*n_agents)
     agents = [f"a{i}" for i in range(n_a)]
     algo = rng.choice(list(algos))
     if algo == "maxsum":
         # computations = variables + factors
-        n_vars = max(2, min(6, rng.randint(n_a // 2, n_a)))
+        n_vars = max(2, min(max_maxsum_vars, rng.randint(n_a // 2, n_a)))
     else:
         n_vars = max(2, min(7, sum(rng.randint(*per_agent) for _ in agents)))
     case = gen.gen_dcop(rng, n_range=(n_vars, n_vars), dom_range=(2, 3),
